@@ -3,10 +3,11 @@ several Python *realisations* of one abstract program with the real spox constru
 of the nested emission from the built ModelProto, and runtime runners.
 
 Shared by the build properties (C01 first; C03/C04/C12 may reuse it).  Nothing in this file uses the
-Lean model; the only spox internals touched are `Var._op` (to remember which Python node realises
-which abstract node) and, in `capture_builds`, `Builder.build_main`'s return value (to read the
-names the build gave to those nodes — used as an *untrusted witness* that `extract_emission`
-re-checks structurally against the ModelProto).
+Lean model.  Everything C01 needs works through the public API and the returned ModelProto only
+(`extract_emission` derives the NodeProto ↔ abstract-node correspondence by demand from the model's
+results).  Optional extras for other properties read internals defensively: `Realised.node_id`
+(`Var._op`) and `capture_builds` (`Builder.build_main`'s BuildResult); when they are not there the
+fields stay empty / `unobservable` is set — nothing raises.
 
 Abstract program (JSON-able dict, so it can be written into replay files as is):
 
@@ -40,7 +41,8 @@ API
     random_binding(prog, rng) -> {arg id: ndarray}
     realise(prog, rng, style) -> Realised                   builds the program with real spox
     capture_builds()                                        context manager recording Builder results
-    extract_emission(prog, realised, model, capture) -> (emission, problems)
+    extract_emission(prog, model) -> (emission, problems)
+    renumber(prog, realised.created) / rename_emission      the program in its REAL creation order
     lean_request(prog, emission, ...) -> dict               request for the C01 driver handler
     ort_session(model) / ort_run(sess, feeds) / run_reference(model, feeds) / same_value(got, want)
 """
@@ -69,6 +71,15 @@ SUB_ATTRS = {"If": ["then_branch", "else_branch"], "Loop": ["body"]}
 
 MAG_INT = 2 ** 40
 MAG_FLOAT = 1e25
+
+
+class HarnessError(Exception):
+    """Trouble inside this library (generator bug, spox internal not observable): never a verdict."""
+
+
+class ConstructorShapeMismatch(Exception):
+    """A spox constructor handed a callback another number of formals, or returned another number of
+    outputs, than the operator has — the program cannot be written as described."""
 
 
 # --------------------------------------------------------------------------------------- types
@@ -818,6 +829,7 @@ class Realised:
         self.created_in: dict[int, int] = {}  # abstract id -> callback nesting depth at creation
         self.extras = 0
         self.style = ""
+        self.unobservable: Optional[str] = None  # set when a spox internal could not be read
 
 
 def realise(prog, rng: random.Random, style: str = "lazy") -> Realised:
@@ -835,7 +847,16 @@ def realise(prog, rng: random.Random, style: str = "lazy") -> Realised:
     import importlib
 
     from spox import Tensor, argument
-    from spox._future import initializer
+
+    initializer = None
+    for modname in ("spox._future", "spox._graph", "spox"):
+        try:
+            initializer = getattr(importlib.import_module(modname), "initializer")
+            break
+        except Exception:  # noqa: BLE001
+            continue
+    if initializer is None and any(n["op"] == "init" for n in prog["nodes"]):
+        raise HarnessError("no `initializer` constructor found in spox._future / spox._graph")
 
     op = importlib.import_module(f"spox.opset.ai.onnx.v{prog.get('opset', 17)}")
     nodes = prog["nodes"]
@@ -852,7 +873,10 @@ def realise(prog, rng: random.Random, style: str = "lazy") -> Realised:
     def register(k, outs):
         for i, v in enumerate(outs):
             R.vars[(k, i)] = v
-        R.node_id[outs[0]._op] = k
+        try:  # observation only (which Python node realises which abstract node)
+            R.node_id[outs[0]._op] = k
+        except Exception as e:  # noqa: BLE001
+            R.unobservable = f"Var._op: {type(e).__name__}: {e}"
         R.created.append(k)
         R.created_in[k] = depth[0]
 
@@ -881,7 +905,7 @@ def realise(prog, rng: random.Random, style: str = "lazy") -> Realised:
         o = n["op"]
         if o == "arg":
             if n["attrs"].get("role") != "main":
-                raise RuntimeError(f"formal {k} demanded outside its body (generator bug)")
+                raise HarnessError(f"formal {k} demanded outside its body (generator bug)")
             t = n["ty"][0]
             register(k, [argument(Tensor(DT[t[0]], shape_of(t)))])
             return
@@ -899,7 +923,7 @@ def realise(prog, rng: random.Random, style: str = "lazy") -> Realised:
                     for fid, fv in zip(body["args"], formals):
                         register(fid, [fv])
                     if len(formals) != len(body["args"]):
-                        raise RuntimeError("callback arity differs from the abstract body")
+                        raise ConstructorShapeMismatch(f"{o} body callback got {len(formals)} formals, expected {len(body['args'])}")
                     if body["args"]:
                         create_upfront(frozenset(body["args"]))
                     res = [var(r) for r in body["res"]]
@@ -947,9 +971,9 @@ def realise(prog, rng: random.Random, style: str = "lazy") -> Realised:
         elif o == "Loop":
             outs = list(op.loop(a[0], a[1], a[2:], body=callback(n["subs"][0])))
         else:
-            raise ValueError(o)
+            raise HarnessError(f"unknown operator {o}")
         if len(outs) != len(n["ty"]):
-            raise RuntimeError(f"{o}: {len(outs)} outputs, abstract node has {len(n['ty'])}")
+            raise ConstructorShapeMismatch(f"{o}: {len(outs)} outputs, abstract node has {len(n['ty'])}")
         register(k, outs)
         maybe_extra()
 
@@ -999,31 +1023,56 @@ def realise(prog, rng: random.Random, style: str = "lazy") -> Realised:
 @contextlib.contextmanager
 def capture_builds():
     """Record (Builder, BuildResult) of every `Builder.build_main` call made inside the block.
-    Observation only: the wrapped method returns exactly what the original returned."""
-    import spox._build as _b
+    Observation only: the wrapped method returns exactly what the original returned.  If the hook
+    point does not exist (refactored internals) the block still runs; the log then carries the
+    reason in `log.unobservable` and stays empty."""
 
-    log: list = []
-    orig = _b.Builder.build_main
+    class _Log(list):
+        unobservable: Optional[str] = None
 
-    def wrapped(self):
-        res = orig(self)
-        log.append((self, res))
-        return res
+    log = _Log()
+    orig = None
+    cls = None
+    try:
+        import spox._build as _b
 
-    _b.Builder.build_main = wrapped
+        cls = _b.Builder
+        orig = cls.build_main
+
+        def wrapped(self, *a, **k):
+            res = orig(self, *a, **k)
+            try:
+                log.append((self, res))
+            except Exception:  # noqa: BLE001
+                pass
+            return res
+
+        cls.build_main = wrapped
+    except Exception as e:  # noqa: BLE001
+        log.unobservable = f"spox._build.Builder.build_main: {type(e).__name__}: {e}"
+        orig = None
     try:
         yield log
     finally:
-        _b.Builder.build_main = orig
+        if orig is not None:
+            try:
+                cls.build_main = orig
+            except Exception:  # noqa: BLE001
+                pass
 
 
-def build_model(realised: Realised):
-    """`spox.build` on a realisation; returns (model, capture log)."""
+def build_model(realised: Realised, capture: bool = False):
+    """`spox.build` on a realisation; returns (model, capture log).  The log is empty unless
+    `capture=True` (C01 does not need it)."""
     import spox
 
     with warnings.catch_warnings():
         warnings.simplefilter("ignore")
-        with capture_builds() as log:
+        if capture:
+            with capture_builds() as log:
+                model = spox.build(realised.inputs, realised.outputs)
+        else:
+            log = []
             model = spox.build(realised.inputs, realised.outputs)
     return model, log
 
@@ -1032,175 +1081,288 @@ def _graph_attrs(node_proto):
     return {a.name: a.g for a in node_proto.attribute if a.type == 5}  # AttributeProto.GRAPH
 
 
-def extract_emission(prog, realised: Realised, model, log):
+def extract_emission(prog, model):
     """Recover the nested emission (node ids of the abstract program, in the order the ModelProto
-    lists them) from the built model.
+    lists them) from the built model — from the ModelProto and the abstract program alone, no spox
+    internals.
 
-    The names given by the build (`scope.node.name_of`, `scope.var.name_of` of the captured
-    BuildResult) are used as a witness NodeProto-name -> abstract id; every use of the witness is
-    re-checked against the ModelProto: operator type, each input name must be *the* name defined for
-    the abstract input reference (anywhere in the model — names must be globally unique), omitted
-    inputs must be omitted, bodies are matched by attribute name, formals positionally, results
-    through the trailing result-Identity nodes.  Ordering and scoping are deliberately *not* judged
+    The correspondence NodeProto ↔ abstract node is *derived by demand from the results*: model
+    output `t` must be the requested output `t`; the NodeProto producing a demanded name must be the
+    abstract node of the demanded reference (same operator, same output position), which in turn
+    demands each of its input names to be its abstract inputs (omitted ↔ omitted), its body graphs
+    (matched by attribute name) to bind the abstract formals positionally and to return the abstract
+    body results; initializers must be initializer nodes with the same value.  Names must be globally
+    unique.  The trailing Identity nodes that produce a graph's outputs are renamings.  Any
+    inconsistency is reported in `problems`.  Ordering and scoping are deliberately *not* judged
     here: that is the job of the Lean `validG` on the returned emission.
 
     Returns (emission | None, problems).  emission = [args, [[id, [emission...]]...], results].
     """
+    from onnx import numpy_helper
+
     nodes = prog["nodes"]
     problems: list[str] = []
-    if not log:
-        return None, ["no build captured"]
-    try:
-        scope = log[-1][1].scope
-        node_names = {nm: realised.node_id[nd] for nd, nm in scope.node.name_of.items() if nd in realised.node_id}
-        var_names = {}
-        for (k, i), v in realised.vars.items():
-            try:
-                nm = scope.var.name_of.get(v)
-            except TypeError:
-                nm = None
-            if nm is not None:
-                var_names[nm] = (k, i)
-    except Exception as e:  # noqa: BLE001
-        return None, [f"witness unavailable: {type(e).__name__}: {e}"]
 
-    # pass 1: every definition in the whole model; names must be unique
-    defs: dict[str, Any] = {}  # name -> ("ref", (k, i)) | ("alias", input name)
+    def problem(msg):
+        if len(problems) < 20:
+            problems.append(msg)
+
+    # ---- a stable tree of the nested graphs
+    class G:
+        def __init__(self, g, main):
+            self.g = g
+            self.main = main
+            self.name = g.name
+            self.inputs = [i.name for i in g.input]
+            self.inits = list(g.initializer)
+            self.outs = [o.name for o in g.output]
+            self.nodes = []  # (NodeProto, {attr name: G})
+            self.pg_args: Optional[list[int]] = None
+            for e in g.node:
+                subs = {a.name: G(a.g, False) for a in e.attribute if a.type == 5}
+                self.nodes.append((e, subs))
+            k = len(self.outs)
+            tail = self.nodes[len(self.nodes) - k:] if k and len(self.nodes) >= k else []
+            ok = (
+                len(tail) == k
+                and all(e.op_type == "Identity" and len(e.input) == 1 and list(e.output) == [o] and not sb
+                        for (e, sb), o in zip(tail, self.outs))
+            )
+            self.alias = {id(e) for e, _ in tail} if ok else set()
+            if not ok:
+                problem(f"graph {self.name}: the graph outputs are not produced by trailing Identity nodes")
+
+    root = G(model.graph, True)
+
+    # ---- every definition in the whole model; names must be unique
+    producers: dict[str, tuple] = {}
     dup: list[str] = []
 
     def define(name, what):
         if not name:
             return
-        if name in defs:
+        if name in producers:
             dup.append(name)
-        defs[name] = what
+        producers[name] = what
 
-    def scan(g, pg_args, is_main):
-        ins = [i.name for i in g.input]
-        init_names = [t.name for t in g.initializer]
-        formal_names = [nm for nm in ins if nm not in init_names] if is_main else ins
-        if is_main:
-            for nm in formal_names:
-                if not (nm.startswith("in") and nm[2:].isdigit() and int(nm[2:]) in pg_args):
-                    problems.append(f"main graph input {nm!r} is not a requested input")
-                else:
-                    define(nm, ("ref", (int(nm[2:]), 0)))
-        else:
-            if len(formal_names) != len(pg_args):
-                problems.append(f"graph {g.name}: {len(formal_names)} formals, program body has {len(pg_args)}")
-            for nm, a in zip(formal_names, pg_args):
-                define(nm, ("ref", (a, 0)))
-        for nm in init_names:
-            if nm in ins and is_main:
-                continue  # default value of a main input: not produced by this vocabulary
-            if nm in var_names and nodes[var_names[nm][0]]["op"] == "init":
-                define(nm, ("ref", var_names[nm]))
-            else:
-                problems.append(f"graph {g.name}: initializer {nm!r} is not an initializer node of the program")
-        for np_ in g.node:
-            k = node_names.get(np_.name)
-            if k is None:
-                if np_.op_type == "Identity" and len(np_.input) == 1 and len(np_.output) == 1:
-                    define(np_.output[0], ("alias", np_.input[0]))
-                else:
-                    problems.append(f"graph {g.name}: node {np_.name!r} ({np_.op_type}) is no node of the program")
+    def index(gr: G):
+        init_names = {t.name for t in gr.inits}
+        for pos, nm in enumerate(gr.inputs):
+            if gr.main and nm in init_names:
                 continue
-            for j, nm in enumerate(np_.output):
-                define(nm, ("ref", (k, j)))
-            subs = _graph_attrs(np_)
-            want = SUB_ATTRS.get(nodes[k]["op"], [])
-            if sorted(subs) != sorted(want):
-                problems.append(f"node {np_.name}: graph attributes {sorted(subs)}, expected {sorted(want)}")
-                continue
-            for idx, an in enumerate(want):
-                scan(subs[an], nodes[k]["subs"][idx]["args"], False)
+            define(nm, ("input", gr, pos))
+        for t in gr.inits:
+            if gr.main and t.name in gr.inputs:
+                problem(f"main input {t.name!r} has a default value (not in this vocabulary)")
+            define(t.name, ("init", gr, t))
+        for e, subs in gr.nodes:
+            for j, nm in enumerate(e.output):
+                define(nm, ("node", gr, e, j))
+            for sg in subs.values():
+                index(sg)
+
+    index(root)
+    if dup:
+        problem(f"names defined more than once in the model: {sorted(set(dup))[:6]}")
 
     margs = main_args(prog)
-    scan(model.graph, margs, True)
-    if dup:
-        problems.append(f"names defined more than once in the model: {sorted(set(dup))[:6]}")
+    root.pg_args = margs
+    mu: dict[int, int] = {}  # id(NodeProto) -> abstract node id
+    init_id: dict[str, int] = {}
+    subs_of: dict[int, dict] = {id(e): sb for gr in _walk_graphs(root) for e, sb in gr.nodes}
+    alias_of: dict[int, bool] = {id(e): (id(e) in gr.alias) for gr in _walk_graphs(root) for e, _ in gr.nodes}
+    work: list[tuple[str, tuple[int, int], str]] = []
 
-    def resolve(nm, hops=0):
-        d = defs.get(nm)
-        if d is None:
-            return None
-        if d[0] == "alias":
-            return resolve(d[1], hops + 1) if hops < 50 else None
-        return d[1]
-
-    # pass 2: emission
-    def emit(g, pg_args, pg_res, is_main):
-        body = []
-        init_names = [t.name for t in g.initializer]
-        for nm in init_names:
-            d = defs.get(nm)
-            if d and d[0] == "ref" and nodes[d[1][0]]["op"] == "init":
-                body.append([d[1][0], []])
-        plain = []
-        tail = []
-        for np_ in g.node:
-            if node_names.get(np_.name) is None:
-                tail.append(np_)
+    def assign(e, k: int, where: str):
+        if id(e) in mu:
+            if mu[id(e)] != k:
+                problem(f"node {e.name}: demanded both as program node {mu[id(e)]} and {k}")
+            return
+        mu[id(e)] = k
+        n = nodes[k]
+        if n["op"] not in ONNX_NAME or e.op_type != ONNX_NAME[n["op"]]:
+            problem(f"node {e.name}: op_type {e.op_type}, but {where} demands program node {k} ({n['op']})")
+            return
+        names = list(e.input)
+        if len(names) > len(n["ins"]) and any(names[len(n["ins"]):]):
+            problem(f"node {e.name}: {len(names)} inputs, program node {k} has {len(n['ins'])}")
+        names = names + [""] * (len(n["ins"]) - len(names))
+        for j, r in enumerate(n["ins"]):
+            if r is None:
+                if names[j]:
+                    problem(f"node {e.name}: input {j} should be omitted, is {names[j]!r}")
+            elif not names[j]:
+                problem(f"node {e.name}: input {j} is omitted, program says {tuple(r)}")
             else:
-                if tail:
-                    problems.append(f"graph {g.name}: result-Identity nodes are not at the end of the node list")
-                plain.append(np_)
-        for np_ in plain:
-            k = node_names[np_.name]
-            n = nodes[k]
-            if n["op"] not in ONNX_NAME or np_.op_type != ONNX_NAME[n["op"]]:
-                problems.append(f"node {np_.name}: op_type {np_.op_type}, program node {k} is {n['op']}")
-            names = list(np_.input) + [""] * (len(n["ins"]) - len(np_.input))
-            if len(names) != len(n["ins"]):
-                problems.append(f"node {np_.name}: {len(np_.input)} inputs, program node {k} has {len(n['ins'])}")
-            for j, (nm, r) in enumerate(zip(names, n["ins"])):
-                if r is None:
-                    if nm:
-                        problems.append(f"node {np_.name}: input {j} should be omitted, is {nm!r}")
-                else:
-                    got = resolve(nm) if nm else None
-                    if got != (r[0], r[1]):
-                        problems.append(f"node {np_.name}: input {j} is {nm!r} = {got}, program says {tuple(r)}")
-            if len(np_.output) > len(n["ty"]):
-                problems.append(f"node {np_.name}: {len(np_.output)} outputs, program node {k} has {len(n['ty'])}")
-            subs = _graph_attrs(np_)
-            sub_em = []
-            for idx, an in enumerate(SUB_ATTRS.get(n["op"], [])):
-                if an in subs:
-                    sub_em.append(emit(subs[an], n["subs"][idx]["args"], n["subs"][idx]["res"], False))
-            body.append([k, sub_em])
-        outs = [o.name for o in g.output]
-        if [t.output[0] for t in tail] != outs:
-            problems.append(f"graph {g.name}: trailing Identity nodes do not produce exactly the graph outputs")
+                work.append((names[j], (r[0], r[1]), f"input {j} of {e.name}"))
+        if len([o for o in e.output if o]) > len(n["ty"]):
+            problem(f"node {e.name}: {len(e.output)} outputs, program node {k} has {len(n['ty'])}")
+        want = SUB_ATTRS.get(n["op"], [])
+        sb = subs_of[id(e)]
+        if sorted(sb) != sorted(want):
+            problem(f"node {e.name}: graph attributes {sorted(sb)}, expected {sorted(want)}")
+            return
+        for idx, an in enumerate(want):
+            sg, ps = sb[an], n["subs"][idx]
+            sg.pg_args = list(ps["args"])
+            if len(sg.inputs) != len(ps["args"]):
+                problem(f"graph {sg.name}: {len(sg.inputs)} formals, program body has {len(ps['args'])}")
+            if len(sg.outs) != len(ps["res"]):
+                problem(f"graph {sg.name}: {len(sg.outs)} results, program body has {len(ps['res'])}")
+            for o, r in zip(sg.outs, ps["res"]):
+                work.append((o, (r[0], r[1]), f"result of {sg.name}"))
+
+    def require(name: str, ref: tuple[int, int], where: str):
+        d = producers.get(name)
+        if d is None:
+            problem(f"{where}: name {name!r} is not defined anywhere in the model")
+            return
+        if d[0] == "input":
+            gr, pos = d[1], d[2]
+            if gr.main:
+                ok = name.startswith("in") and name[2:].isdigit() and (int(name[2:]), 0) == ref and ref[0] in margs
+            else:
+                ok = gr.pg_args is not None and pos < len(gr.pg_args) and (gr.pg_args[pos], 0) == ref
+            if not ok:
+                problem(f"{where}: {name!r} is formal {pos} of graph {gr.name}, program says {ref}")
+        elif d[0] == "init":
+            n = nodes[ref[0]] if ref[0] < len(nodes) else None
+            if n is None or n["op"] != "init" or ref[1] != 0:
+                problem(f"{where}: {name!r} is an initializer, program says {ref}")
+                return
+            if init_id.setdefault(name, ref[0]) != ref[0]:
+                problem(f"initializer {name!r} demanded as two different program nodes")
+            try:
+                if not np.array_equal(numpy_helper.to_array(d[2]), np_const(n)):
+                    problem(f"initializer {name!r}: value differs from program node {ref[0]}")
+            except Exception as e:  # noqa: BLE001
+                problem(f"initializer {name!r}: unreadable ({type(e).__name__})")
+        else:
+            _, gr, e, j = d
+            if alias_of[id(e)]:
+                work.append((e.input[0], ref, where + " via " + e.name))
+            elif j != ref[1]:
+                problem(f"{where}: {name!r} is output {j} of {e.name}, program says {ref}")
+            else:
+                assign(e, ref[0], where)
+
+    if len(root.outs) != len(prog["outputs"]):
+        problem(f"model has {len(root.outs)} outputs, {len(prog['outputs'])} were requested")
+    for o, r in zip(root.outs, prog["outputs"]):
+        work.append((o, (r[0], r[1]), "model output " + o))
+    for nm in root.inputs:
+        if not (nm.startswith("in") and nm[2:].isdigit() and int(nm[2:]) in margs):
+            problem(f"main graph input {nm!r} is not a requested input")
+    steps = 0
+    while work and steps < 100000:
+        steps += 1
+        require(*work.pop())
+
+    # ---- the emission, by reading the model in its own order
+    def resolve(name, hops=0):
+        d = producers.get(name)
+        if d is None or hops > 60:
+            return None
+        if d[0] == "input":
+            gr, pos = d[1], d[2]
+            if gr.main:
+                return (int(name[2:]), 0) if name.startswith("in") and name[2:].isdigit() else None
+            return (gr.pg_args[pos], 0) if gr.pg_args is not None and pos < len(gr.pg_args) else None
+        if d[0] == "init":
+            return (init_id[name], 0) if name in init_id else None
+        _, gr, e, j = d
+        if alias_of[id(e)]:
+            return resolve(e.input[0], hops + 1)
+        return (mu[id(e)], j) if id(e) in mu else None
+
+    def emit(gr: G):
+        body = []
+        for t in gr.inits:
+            if t.name in init_id:
+                body.append([init_id[t.name], []])
+            elif not (gr.main and t.name in gr.inputs):
+                problem(f"graph {gr.name}: initializer {t.name!r} is used by no result")
+        for e, sb in gr.nodes:
+            if id(e) in gr.alias:
+                continue
+            if id(e) not in mu:
+                problem(f"graph {gr.name}: node {e.name} ({e.op_type}) is required by no result")
+                continue
+            k = mu[id(e)]
+            want = SUB_ATTRS.get(nodes[k]["op"], [])
+            body.append([k, [emit(sb[an]) for an in want if an in sb]])
         res = []
-        for nm in outs:
+        for nm in gr.outs:
             r = resolve(nm)
             if r is None:
-                problems.append(f"graph {g.name}: output {nm!r} is not defined")
+                problem(f"graph {gr.name}: output {nm!r} cannot be traced to a program value")
                 r = (10 ** 6, 0)
             res.append([r[0], r[1]])
-        if is_main:
-            args = [int(nm[2:]) for nm in (i.name for i in g.input) if nm.startswith("in") and nm[2:].isdigit()]
+        if gr.main:
+            args = [int(nm[2:]) for nm in gr.inputs if nm.startswith("in") and nm[2:].isdigit()]
         else:
-            args = list(pg_args)
+            args = list(gr.pg_args) if gr.pg_args is not None else []
         return [args, body, res]
 
-    em = emit(model.graph, margs, prog["outputs"], True)
+    em = emit(root)
     return em, problems
 
 
+def _walk_graphs(gr):
+    yield gr
+    for _, subs in gr.nodes:
+        for sg in subs.values():
+            yield from _walk_graphs(sg)
+
+
+def renumber(prog, order: list[int]):
+    """The program restricted to the nodes in `order` and renumbered by position in `order` (used with
+    `Realised.created`: the program as it was *really* created, in real creation order).  Returns
+    (prog', idmap); references to nodes outside `order` become dangling ids (≥ len) on purpose."""
+    idmap = {k: i for i, k in enumerate(order)}
+    big = len(prog["nodes"]) + len(order) + 7
+
+    def ref(r):
+        return None if r is None else [idmap.get(r[0], big + r[0]), r[1]]
+
+    nodes = []
+    for k in order:
+        n = prog["nodes"][k]
+        nodes.append({
+            "op": n["op"],
+            "ins": [ref(r) for r in n["ins"]],
+            "subs": [{"args": [idmap.get(a, big + a) for a in s["args"]], "res": [ref(r) for r in s["res"]]} for s in n["subs"]],
+            "attrs": n["attrs"],
+            "ty": n["ty"],
+        })
+    return {"nodes": nodes, "outputs": [ref(r) for r in prog["outputs"]], "opset": prog.get("opset", 17)}, idmap
+
+
+def rename_emission(em, idmap, big=10 ** 6):
+    """Apply an id renaming to an emission."""
+    return [
+        [idmap.get(a, big + a) for a in em[0]],
+        [[idmap.get(k, big + k), [rename_emission(s, idmap, big) for s in subs]] for k, subs in em[1]],
+        [[idmap.get(r[0], big + r[0]), r[1]] for r in em[2]],
+    ]
+
+
+_LABELS: dict[str, int] = {}
+
+
 def labels_of(prog) -> list[int]:
-    """Semantic label of every node: one number per distinct (operator, attributes) pair."""
-    table: dict[str, int] = {}
+    """Semantic label of every node: one number per distinct (operator, attributes) pair; the table is
+    process-wide so that the same pair gets the same label in every numbering of a program."""
     out = []
     for n in prog["nodes"]:
         key = json.dumps([n["op"], n["attrs"], len(n["ty"])], sort_keys=True)
-        out.append(table.setdefault(key, len(table) + 1))
+        out.append(_LABELS.setdefault(key, len(_LABELS) + 1))
     return out
 
 
-def lean_request(prog, emission, vals: list[list[int]], seed: int) -> dict:
-    """The request understood by `Drv/C01.lean` (program, emission, integer test bindings)."""
+def lean_request(prog, emission, vals: list[list[int]], seed: int, margs: Optional[list[int]] = None) -> dict:
+    """The request understood by `Drv/C01.lean` (program, emission, integer test bindings).
+    `margs`: the model inputs in input order (default: the main arguments in id order)."""
     labs = labels_of(prog)
     nodes = []
     for n, lab in zip(prog["nodes"], labs):
@@ -1212,7 +1374,7 @@ def lean_request(prog, emission, vals: list[list[int]], seed: int) -> dict:
         full.append(full[-1] + 1 + len(n["subs"]) * full[-1])
     return {
         "nodes": nodes,
-        "main": [main_args(prog), prog["outputs"]],
+        "main": [main_args(prog) if margs is None else margs, prog["outputs"]],
         "emit": emission,
         "vals": vals,
         "seed": seed,
